@@ -166,14 +166,38 @@ def run_streams(ctx, P):
             res["coverage"][k] = v
     return res
 
+def P(level, streams=None, configs=None, **kw):
+    d = {"level": level}
+    if streams:
+        d["streams"] = ["streams"]; d["stream_names"] = streams
+    if configs:
+        d["configs"] = configs
+    d.update(kw)
+    return d
+
+TB_CORR = ["correspondence check: harness/driver.cpp (C++, built from /repo's working tree with -fno-access-control) vs Spec.Proto.run_line extracted with ExtrOcamlBasic only (no Extract Constant; positive/N/Z stay inductive) + coq/extraction/driver.ml (I/O) + icu_stub.c",
+           "ICU 72.1 uidna_nameToASCII as UTS #46; the translation of the Standard's ToASCII flags into an ICU option word and ignored-error mask (icu_stub.c)",
+           "Spec.* as hand transcription of the WHATWG URL Standard (DESIGN appendix A)"]
+
 PROPS = {
-    "C13": {
-        "level": "proof",
-        "proof_search": c13_search,
-        "trusted_base": [
+    "C13": P("proof", proof_search=c13_search,
+        trusted_base=[
             "translator T1: harness/dump_tables.cpp compiled by g++ in -std=c++11/14/17/20 against /repo's current headers and sources (-fno-access-control) + harness/gen_tables.py",
-            "Spec.CodePoints: hand transcription of the Standard's set definitions (DESIGN appendix A.1)",
-        ],
-        "assumptions": ["the four language modes are exercised with g++ 12.2 only"],
-    },
+            "Spec.CodePoints: hand transcription of the Standard's set definitions (DESIGN appendix A.1)"],
+        assumptions=["the four language modes are exercised with g++ 12.2 only"]),
+    "C01": P("other", ["parse", "parse_exhaustive"], trusted_base=TB_CORR),
+    "C02": P("other", ["reparse"], trusted_base=TB_CORR),
+    "C03": P("other", ["setters"], trusted_base=TB_CORR),
+    "C05": P("other", ["histories"], trusted_base=TB_CORR),
+    "C06": P("other", ["histories"], trusted_base=TB_CORR),
+    "C07": P("other", ["host"], trusted_base=TB_CORR),
+    "C08": P("other", ["parse", "setters", "histories"], trusted_base=TB_CORR),
+    "C09": P("other", ["canparse"], trusted_base=TB_CORR),
+    "C10": P("proof", ["encodings"], trusted_base=TB_CORR),
+    "C11": P("proof", ["ipv4"], trusted_base=TB_CORR),
+    "C12": P("proof", ["ipv6"], trusted_base=TB_CORR),
+    "C14": P("proof", ["percent"], trusted_base=TB_CORR),
+    "C15": P("proof", ["urlenc"], trusted_base=TB_CORR),
+    "C16": P("proof", ["usp"], trusted_base=TB_CORR),
+    "C17": P("other", ["filepath"], trusted_base=TB_CORR),
 }
